@@ -13,12 +13,12 @@ import (
 )
 
 type Dump struct {
-	Evaluations int            `json:"evaluations"`
-	Classes     map[string]int `json:"classes"`
-	NonTrivial  []string       `json:"nontrivial_hashes"` // distinct hashes (driver unions them across shards)
+	Evaluations int                          `json:"evaluations"`
+	Classes     map[string]int               `json:"classes"`
+	NonTrivial  []string                     `json:"nontrivial_hashes"` // distinct hashes (driver unions them across shards)
 	Samples     map[string][]json.RawMessage `json:"samples"`
-	Excluded    map[string]int `json:"excluded_known"`
-	Notes       []string       `json:"notes,omitempty"`
+	Excluded    map[string]int               `json:"excluded_known"`
+	Notes       []string                     `json:"notes,omitempty"`
 }
 
 var (
